@@ -129,6 +129,8 @@ def _re_items(regex):
             if lo != 1 or hi is not sre_c.MAXREPEAT or len(body) != 1:
                 raise RuntimeError("unsupported repetition %r in %r" % (sub[0], regex.pattern))
             items.append("IPlusGroup %s %s" % (cN(group), cls(body[0])))
+        elif op is sre_c.MAX_REPEAT and arg[0] == 0 and arg[1] == 1 and len(list(arg[2])) == 1 and list(arg[2])[0][0] is sre_c.LITERAL:
+            items.append("IOpt %s" % cN(list(arg[2])[0][1]))
         elif op is sre_c.MAX_REPEAT:
             lo, hi, body = arg
             body = list(body)
@@ -148,7 +150,8 @@ def translators(repo):
     if not os.path.abspath(tb.__file__).startswith(os.path.abspath(repo)):
         raise RuntimeError("boltons imported from %s, not from %s" % (tb.__file__, repo))
     regexes = []
-    for coq_name, attr in (("gen_frame", "_frame_re"), ("gen_se", "_se_frame_re"), ("gen_underline", "_underline_re")):
+    for coq_name, attr in (("gen_frame", "_frame_re"), ("gen_se", "_se_frame_re"), ("gen_underline", "_underline_re"),
+                           ("gen_repeat", "_repeat_re")):
         items, groups = _re_items(getattr(tb, attr))
         regexes.append("(* boltons.tbutils.%s = %s *)\nDefinition %s_items : list item := %s.\nDefinition %s_groups : list N := %s.\n"
                        % (attr, getattr(tb, attr).pattern.replace("(*", "( *").replace("*)", "* )").replace('"', "DQ"),
@@ -156,6 +159,10 @@ def translators(repo):
     sp, br, dg = _classes()
     if not sp or not br or not dg:
         raise RuntimeError("empty character class")
+    for lo, hi in dg:       # val_ranges: blocks of ten count 0..9 from the start of their range
+        for c in range(lo, hi + 1):
+            if int(chr(c)) != (c - lo) % 10:
+                raise RuntimeError("decimal digit U+%04X has value %d, not (c - %d) mod 10" % (c, int(chr(c)), lo))
 
     def rl(rs):
         return clist("(%s, %s)" % (cN(a), cN(b)) for a, b in rs)
@@ -166,7 +173,7 @@ def translators(repo):
             "Definition py_break_ranges : list (N * N) := %s.\n"
             "Definition py_digit_ranges : list (N * N) := %s.\n"
             "Definition py_cc : cc := mkCC (in_ranges py_space_ranges) (in_ranges py_break_ranges) "
-            "(in_ranges py_digit_ranges).\n"
+            "(in_ranges py_digit_ranges) (val_ranges py_digit_ranges).\n"
             % (sys.version.split()[0], rl(sp), rl(br), rl(dg)))
     text += "(* the three patterns, parsed by re._parser from the module as it is now *)\n" + "".join(regexes)
     return {"C16_Gen": text}
@@ -593,12 +600,15 @@ RE_SEEDS = ['File "a.py", line 1, in f', 'File "a", line 5, in b.py", line 12, i
             'File "a", line 1, in f\n\n', 'File "a", line 1, in f\ng', 'File "a\nb", line 1, in f', 'File "", line 1, in f',
             'File "a", line , in f', 'File "a", line 12', 'File "a", line 12, in ', ' File "a", line 1, in f', 'file "a", line 1, in f',
             'File "a", line \u0663\u0664, in f', 'File "a", line 1,, in f', 'File "a"", line 1, in f', 'File "a", line 1, in f, in g',
-            'File "x", line 3", line 4, in z', '', ' ', '~^ ~', '~^x', '^\n', '^\n\n', '\n', '~\n^', '  ^^^  ', 'File "a", line 12x',
+            'File "x", line 3", line 4, in z', '', ' ', '~^ ~', '~^x', '^\n', '^\n\n', '\n', '~\n^', '  ^^^  ', 'File "a", line 12x', '[Previous line repeated 3 more times]', '[Previous line repeated 1 more time]',
+            '[Previous line repeated 12 more times]\n', '[Previous line repeated  more times]', '[Previous line repeated 2 more timess]',
+            '[Previous line repeated \u0663 more time]', '  [Previous line repeated 4 more times]', '[Previous line repeated 4 more times] ',
+            '[Previous line repeated 4 more times', '[Previous line repeated 5 more time]x', '[Previous line repeated 7 more times]\n\n',
             'File "\x0c", line 1, in \x0c', 'File "a", line 1, in \u2028', 'File "a", line 19, line 20, in g']
 
 
 def gen_re(rng, tier):
-    which = rng.choice([0, 0, 0, 1, 1, 2])
+    which = rng.choice([0, 0, 0, 1, 1, 2, 3, 3])
     r = rng.random()
     if r < 0.4:
         s = rng.choice(RE_SEEDS)
@@ -607,6 +617,8 @@ def gen_re(rng, tier):
         base["renderer"] = "plain"
         lines = plain_render(base).split("\n")
         s = rng.choice(lines)
+        if which == 3 and rng.random() < 0.6:
+            s = "  [Previous line repeated %s more time%s]" % (rng.choice(["1", "2", "10", "007", "\u0664"]), rng.choice(["", "s"]))
         if rng.random() < 0.7:
             s = s.strip()
     for _ in range(rng.choice([0, 0, 1, 2])):
@@ -691,7 +703,7 @@ def run_impl(case):
         return {"parsed": parsed, "printed": printed}
     if kind == "re":
         from boltons import tbutils
-        regex = (tbutils._frame_re, tbutils._se_frame_re, tbutils._underline_re)[case["which"]]
+        regex = (tbutils._frame_re, tbutils._se_frame_re, tbutils._underline_re, tbutils._repeat_re)[case["which"]]
         m = regex.match(case["s"])
         return {"groups": None if m is None else list(m.groups())}
     return _run_program(case)
@@ -1000,7 +1012,7 @@ def distribution(d, case, obs):
             inc("rt_last_frame_without_source", "yes")
         inc("rt_outcome", "parsed" if "err" not in obs["parsed"] else obs["parsed"]["err"])
     elif kind == "re":
-        inc("re_outcome", "%s:%s" % (("frame", "se_frame", "underline")[case["which"]], "match" if obs["groups"] is not None else "no"))
+        inc("re_outcome", "%s:%s" % (("frame", "se_frame", "underline", "repeat")[case["which"]], "match" if obs["groups"] is not None else "no"))
     elif kind == "sess":
         inc("sess_steps", str(len(obs["steps"])))
         for st, o in zip(case["steps"], obs["steps"]):
